@@ -365,6 +365,40 @@ func gRouteStorageAppend(c *Check, rule string) {
 }
 
 // C05 extras: MustSync, snapshot promise, restart from storage, globals.
+// cSnapshotReply — what a follower acknowledges after a MsgSnap: its last index only when the
+// snapshot was installed, otherwise only its commit index (never an unverified tail).
+func cSnapshotReply(c *Check, rule string) {
+	p := c.P
+	handleSnapshot := p.Method("raft", "raft", "handleSnapshot")
+	restore := p.Method("raft", "raft", "restore")
+	lastIndex := p.Method("raft", "raftLog", "lastIndex")
+	committedF := p.Field("raft", "raftLog", "committed")
+	msgT := p.Type("raftpb", "Message")
+	if handleSnapshot == nil || restore == nil || msgT == nil {
+		return
+	}
+	fi := p.Info(handleSnapshot)
+	for _, lit := range p.Lits(msgT) {
+		if lit.Fn != handleSnapshot {
+			continue
+		}
+		idx := lit.FieldSym(p, "Index")
+		f := fi.FactsAt(lit.Alloc)
+		tested := &Facts{FI: fi, Atoms: f.Tested}
+		restored := tested.HasBool(isCallTo(restore), true) != nil
+		notRestored := tested.HasBool(isCallTo(restore), false) != nil
+		site := p.site(lit.Alloc)
+		switch {
+		case idx != nil && idx.K == KCall && idx.Fn == lastIndex:
+			c.Result(restored, rule, "snapshot success reply", fnName(handleSnapshot), site, "acknowledges lastIndex() only after r.restore(s) returned true", strings.Join(f.Describe(), "; "))
+		case idx != nil && idx.K == KField && idx.Fld == committedF:
+			c.Result(notRestored, rule, "snapshot ignore reply", fnName(handleSnapshot), site, "acknowledges only the commit index when the snapshot was not installed", strings.Join(f.Describe(), "; "))
+		default:
+			c.Bad(rule, "snapshot reply", fnName(handleSnapshot), site, "Index <- lastIndex() (installed) or committed (ignored)", fmt.Sprintf("Index <- %v", idx))
+		}
+	}
+}
+
 func c05Extras(c *Check) {
 	p := c.P
 	mustSync := p.Func("raft", "MustSync")
@@ -404,37 +438,11 @@ func c05Extras(c *Check) {
 		}
 	}
 	// C05.S snapshot promise
-	handleSnapshot := p.Method("raft", "raft", "handleSnapshot")
-	restore := p.Method("raft", "raft", "restore")
+	cSnapshotReply(c, "C05.S")
 	appliedSnap := p.Method("raft", "raft", "appliedSnap")
 	step := p.Method("raft", "raft", "Step")
 	getType := p.Method("raftpb", "Message", "GetType")
-	lastIndex := p.Method("raft", "raftLog", "lastIndex")
-	committedF := p.Field("raft", "raftLog", "committed")
-	msgT := p.Type("raftpb", "Message")
 	sar := p.ConstVal("raftpb", "MsgStorageAppendResp")
-	if handleSnapshot != nil && restore != nil {
-		fi := p.Info(handleSnapshot)
-		for _, lit := range p.Lits(msgT) {
-			if lit.Fn != handleSnapshot {
-				continue
-			}
-			idx := lit.FieldSym(p, "Index")
-			f := fi.FactsAt(lit.Alloc)
-			tested := &Facts{FI: fi, Atoms: f.Tested}
-			restored := tested.HasBool(isCallTo(restore), true) != nil
-			notRestored := tested.HasBool(isCallTo(restore), false) != nil
-			site := p.site(lit.Alloc)
-			switch {
-			case idx != nil && idx.K == KCall && idx.Fn == lastIndex:
-				c.Result(restored, "C05.S", "snapshot success reply", fnName(handleSnapshot), site, "acknowledges lastIndex() only after r.restore(s) returned true", strings.Join(f.Describe(), "; "))
-			case idx != nil && idx.K == KField && idx.Fld == committedF:
-				c.Result(notRestored, "C05.S", "snapshot ignore reply", fnName(handleSnapshot), site, "acknowledges only the commit index when the snapshot was not installed", strings.Join(f.Describe(), "; "))
-			default:
-				c.Bad("C05.S", "snapshot reply", fnName(handleSnapshot), site, "Index <- lastIndex() (installed) or committed (ignored)", fmt.Sprintf("Index <- %v", idx))
-			}
-		}
-	}
 	if appliedSnap != nil && step != nil {
 		for _, cs := range p.CallsTo(appliedSnap) {
 			cfi := p.Info(cs.Caller)
